@@ -56,6 +56,14 @@ def installed(fs):
         nptdms.reader.os = real_os
 
 
+class _Sink(object):
+    def write(self, s):
+        return len(s)
+
+    def flush(self):
+        pass
+
+
 _default_array_equal = nptdms.reader._array_equal.__defaults__
 
 
@@ -64,11 +72,19 @@ def knobs(dedup_chunk=None, debug_log=False):
     """Tuning constants randomised per world (swarm knobs)."""
     if dedup_chunk is not None:
         nptdms.reader._array_equal.__defaults__ = (dedup_chunk,)
+    old_stream = None
     if debug_log:
+        # DEBUG takes extra branches (lead-in, raw data index, DAQmx metadata repr); the records are formatted
+        # for real but written to a sink, never to the console
         set_log_level(logging.DEBUG)
+        old_stream = log_manager.console_handler.setStream(_Sink())
+        log_manager.console_handler.setLevel(logging.DEBUG)
     try:
         yield
     finally:
         nptdms.reader._array_equal.__defaults__ = _default_array_equal
         if debug_log:
             set_log_level(logging.ERROR)
+            log_manager.console_handler.setLevel(logging.CRITICAL + 1)
+            if old_stream is not None:
+                log_manager.console_handler.setStream(old_stream)
